@@ -222,6 +222,19 @@ func (g *G) parseBases(tier string) [][2]string {
 {"spdxElementId":"SPDXRef-DOCUMENT","relationshipType":"DESCRIBES","relatedSpdxElement":"SPDXRef-lib"},
 {"spdxElementId":"SPDXRef-app","relationshipType":"CONTAINS","relatedSpdxElement":"SPDXRef-f"},
 {"spdxElementId":"SPDXRef-app","relationshipType":"DEPENDS_ON","relatedSpdxElement":"SPDXRef-lib"}]}`), "spdx-describes-twice")
+	// two packages that each ship a file of the same name, one of the files also described by the
+	// document directly, a file whose name is a package's identifier
+	add([]byte(`{"spdxVersion":"SPDX-2.3","dataLicense":"CC0-1.0","SPDXID":"SPDXRef-DOCUMENT","name":"twins","documentNamespace":"https://example.com/twins",
+"creationInfo":{"created":"2023-01-01T00:00:00Z","creators":["Tool: t"]},
+"packages":[{"SPDXID":"SPDXRef-Package-app","name":"app","downloadLocation":"NOASSERTION"},{"SPDXID":"SPDXRef-Package-lib","name":"lib","downloadLocation":"NOASSERTION"}],
+"files":[{"SPDXID":"SPDXRef-File-app-license","fileName":"./LICENSE","checksums":[{"algorithm":"SHA1","checksumValue":"aa"}]},
+{"SPDXID":"SPDXRef-File-lib-license","fileName":"./LICENSE","checksums":[{"algorithm":"SHA1","checksumValue":"bb"}]},
+{"SPDXID":"SPDXRef-File-firmware.bin","fileName":"Package-app","checksums":[{"algorithm":"SHA1","checksumValue":"cc"}]}],
+"relationships":[{"spdxElementId":"SPDXRef-DOCUMENT","relationshipType":"DESCRIBES","relatedSpdxElement":"SPDXRef-Package-app"},
+{"spdxElementId":"SPDXRef-DOCUMENT","relationshipType":"DESCRIBES","relatedSpdxElement":"SPDXRef-File-firmware.bin"},
+{"spdxElementId":"SPDXRef-Package-app","relationshipType":"CONTAINS","relatedSpdxElement":"SPDXRef-File-app-license"},
+{"spdxElementId":"SPDXRef-Package-lib","relationshipType":"CONTAINS","relatedSpdxElement":"SPDXRef-File-lib-license"},
+{"spdxElementId":"SPDXRef-Package-app","relationshipType":"DEPENDS_ON","relatedSpdxElement":"SPDXRef-Package-lib"}]}`), "spdx-twin-files")
 	if tier == "thorough" {
 		repo := os.Getenv("VERIF_REPO")
 		if repo == "" {
@@ -286,6 +299,15 @@ func parseGen(g *G, tier string) []M {
 		"İİİİİİİİİİ SPDXVersion: SPDX-2.3", "x\nẞẞẞẞ SPDXVERSION: spdx-2.2\n", "SPDXVersion: SPDX-2.3\nDocumentName: ȺȾİ\n"} {
 		in := parseInput([]byte(txt), fmt.Sprintf("text-%d", i), "none")
 		ops = append(ops, M{"op": "sniffPair", "in": in}, M{"op": "parse", "in": in})
+	}
+	// the shapes CycloneDX allows for metadata.tools: the list of 1.4, and the object of 1.5 with
+	// components, with services only, with nothing
+	for i, tools := range []string{`[{"vendor":"v","name":"t","version":"1"}]`, `{"components":[{"type":"application","name":"t","version":"1"}]}`,
+		`{"services":[{"name":"s"}]}`, `{}`, `{"components":[]}`, `{"components":null,"services":null}`, `[]`, `null`} {
+		for _, ver := range []string{"1.5", "1.4"} {
+			doc := `{"bomFormat":"CycloneDX","specVersion":"` + ver + `","version":1,"metadata":{"tools":` + tools + `,"component":{"bom-ref":"app","type":"application","name":"app"}},"components":[{"bom-ref":"lib","type":"library","name":"lib"}]}`
+			ops = append(ops, M{"op": "parse", "in": parseInput([]byte(doc), fmt.Sprintf("tools-%d-%s", i, ver), "none")})
+		}
 	}
 	for _, bs := range bases {
 		raw, src := []byte(bs[0]), bs[1]
@@ -565,7 +587,8 @@ func ExecParse(op M) (res any) {
 	case "sniffPair":
 		// format detection on its own: exactly one of a format and an error, through both entry points
 		f, err := (&formats.Sniffer{}).SniffReader(bytes.NewReader(b))
-		return M{"format": string(f), "err": err != nil}
+		fw := sniffForwardOnly(b)
+		return M{"format": string(f), "err": err != nil, "fwFormat": fw["format"], "fwErr": fw["err"]}
 	case "parseEditParse":
 		// what a parse returns belongs to the caller: editing it in place changes nothing for the
 		// other nodes of the same result nor for the next parse of the same bytes
@@ -688,6 +711,46 @@ func spdxRefsResolve(b []byte) (ok bool) {
 	return true
 }
 
+// spdxIDs: does every element of the document carry an SPDXID (the schema requires one), and is
+// none given to two elements?
+func spdxIDs(b []byte) (named, unique bool) {
+	defer func() {
+		if recover() != nil {
+			named, unique = false, false
+		}
+	}()
+	doc, err := spdxjson.Read(bytes.NewReader(b))
+	if err != nil {
+		return false, false
+	}
+	named, unique = true, true
+	seen := map[string]bool{}
+	note := func(id string) {
+		if id == "" {
+			named = false
+		}
+		if seen[id] {
+			unique = false
+		}
+		seen[id] = true
+	}
+	for _, p := range doc.Packages {
+		if p == nil {
+			named = false
+			continue
+		}
+		note(string(p.PackageSPDXIdentifier))
+	}
+	for _, f := range doc.Files {
+		if f == nil {
+			named = false
+			continue
+		}
+		note(string(f.FileSPDXIdentifier))
+	}
+	return named, unique
+}
+
 func oracleParse(op M, res any, exec func(M) any) []Finding {
 	var out []Finding
 	switch asStr(op["op"]) {
@@ -702,6 +765,11 @@ func oracleParse(op M, res any, exec func(M) any) []Finding {
 			case f != "" && e:
 				for _, p := range []string{"C04", "C06"} {
 					out = append(out, Finding{p, "format detection (" + src + ") returns both a format (" + f + ") and an error"})
+				}
+			}
+			if f, e := asStr(r["fwFormat"]), r["fwErr"] == true; (f != "") == e {
+				for _, p := range []string{"C04", "C06"} {
+					out = append(out, Finding{p, fmt.Sprintf("format detection on a stream that cannot be rewound (%s) returns format %q and error %v: not exactly one of the two", src, f, e)})
 				}
 			}
 		} else if s, ok := res.(string); ok && strings.HasPrefix(s, "panic") {
@@ -733,8 +801,8 @@ func oracleParse(op M, res any, exec func(M) any) []Finding {
 			if id == "" {
 				out = append(out, Finding{"C05", what + ": a parsed node has an empty identifier"})
 			}
-			if ids[id] && what == "cdx" {
-				out = append(out, Finding{"C05", what + ": parsed identifiers repeat: " + id})
+			if ids[id] && (what == "cdx" || what == "spdx-unique") {
+				out = append(out, Finding{"C05", what + ": parsed identifiers repeat although the input's do not: " + id})
 			}
 			ids[id] = true
 		}
@@ -807,6 +875,17 @@ func oracleParse(op M, res any, exec func(M) any) []Finding {
 	case "parse", "parseAs":
 		if sk, ok := res.(M); ok && isCdx && sk["nodes"] != nil {
 			closure(sk, "cdx")
+		} else if ok && !isCdx && sk["nodes"] != nil && strings.Contains(asStr(in0["src"]), "spdx") {
+			// SPDX: closed whenever the input's own references resolve, identifiers as unique as the input's
+			if b, err := base64.StdEncoding.DecodeString(asStr(in0["b64"])); err == nil && spdxRefsResolve(b) {
+				if named, unique := spdxIDs(b); named {
+					what := "spdx"
+					if unique {
+						what = "spdx-unique"
+					}
+					closure(sk, what)
+				}
+			}
 		}
 	}
 	if s, ok := res.(string); ok && s != "err" && s != "unknown-op" && s != "skipped-after-hang" {
